@@ -38,6 +38,25 @@ from ..api.tracepoint import TracePointConfig as TrPoCo, EventSnapshot, StackFra
 from ..grpc import convert_value
 
 
+def __as_text(value):
+    """
+    Make a string safe to send.
+
+    Protobuf strings have to be valid UTF-8, python strings do not (e.g. lone surrogates from os.fsdecode or
+    from user data). Rather than lose the whole snapshot, escape what cannot be encoded.
+
+    :param value: the string to check
+    :return: the string if it can be encoded, else the string with the un-encodable characters escaped
+    """
+    if not isinstance(value, str):
+        return value
+    try:
+        value.encode('utf-8')
+        return value
+    except UnicodeEncodeError:
+        return value.encode('utf-8', 'backslashreplace').decode('utf-8')
+
+
 def __convert_tracepoint(tracepoint: TrPoCo):
     return TracePointConfig(ID=tracepoint.id, path=tracepoint.path, line_number=tracepoint.line_no,
                             args=tracepoint.args,
@@ -45,8 +64,9 @@ def __convert_tracepoint(tracepoint: TrPoCo):
 
 
 def __convert_frame(frame: StFr):
-    return StackFrame(file_name=frame.file_name, short_path=frame.short_path, method_name=frame.method_name,
-                      line_number=frame.line_number, class_name=frame.class_name, is_async=frame.is_async,
+    return StackFrame(file_name=__as_text(frame.file_name), short_path=__as_text(frame.short_path),
+                      method_name=__as_text(frame.method_name),
+                      line_number=frame.line_number, class_name=__as_text(frame.class_name), is_async=frame.is_async,
                       column_number=frame.column_number, variables=[__convert_variable_id(v) for v in frame.variables],
                       app_frame=frame.app_frame,
                       transpiled_file_name=frame.transpiled_file_name,
@@ -60,20 +80,20 @@ def __convert_watch_source(source):
 
 
 def __convert_watch(watch: WaRe):
-    return WatchResult(expression=watch.expression, good_result=__convert_variable_id(watch.result),
-                       error_result=watch.error, source=__convert_watch_source(watch.source))
+    return WatchResult(expression=__as_text(watch.expression), good_result=__convert_variable_id(watch.result),
+                       error_result=__as_text(watch.error), source=__convert_watch_source(watch.source))
 
 
 def __convert_variable(variable: Var):
-    return Variable(type=variable.type, value=variable.value, hash=variable.hash,
+    return Variable(type=__as_text(variable.type), value=__as_text(variable.value), hash=variable.hash,
                     children=[__convert_variable_id(c) for c in variable.children], truncated=variable.truncated)
 
 
 def __convert_variable_id(variable: VarId):
     if variable is None:
         return None
-    return VariableID(ID=variable.vid, name=variable.name, modifiers=variable.modifiers,
-                      original_name=variable.original_name)
+    return VariableID(ID=variable.vid, name=__as_text(variable.name), modifiers=variable.modifiers,
+                      original_name=__as_text(variable.original_name))
 
 
 def __convert_lookup(var_lookup):
@@ -99,7 +119,7 @@ def convert_snapshot(snapshot: EventSnapshot) -> Snapshot:
                         duration_nanos=snapshot.duration_nanos,
                         resource=[KeyValue(key=k, value=convert_value(v)) for k, v in
                                   snapshot.resource.attributes.items()],
-                        log_msg=snapshot.log_msg)
+                        log_msg=__as_text(snapshot.log_msg))
     except Exception:
         # todo should this return None?
         logging.exception("Error converting to protobuf")
